@@ -42,7 +42,7 @@ def st_append_arg(draw, valid_only=False):
 
 @st.composite
 def st_array_op(draw, shape_rank, extra=()):
-    o = draw(st.sampled_from(['append', 'append', 'iterappend', 'set', 'trunc', 'trunc', 'mode', 'reopen', 'ctx', 'copy', 'failappend', 'sibling', 'recreate', 'overwrite-refused'] + list(extra)))
+    o = draw(st.sampled_from(['append', 'append', 'iterappend', 'set', 'trunc', 'trunc', 'mode', 'reopen', 'ctx', 'copy', 'failappend', 'sibling', 'recreate', 'overwrite-refused', 'iterappend-x'] + list(extra)))
     if o == 'append':
         return {'o': 'append', 'arg': draw(st_append_arg())}
     if o == 'iterappend':
@@ -68,6 +68,9 @@ def st_array_op(draw, shape_rank, extra=()):
         return {'o': 'copy', 'chunklen': draw(st.sampled_from([None, 1, 2, 3]))}
     if o == 'recreate':
         return {'o': 'recreate', 'how': draw(st.sampled_from(['delete_array', 'rmtree']))}
+    if o == 'iterappend-x':
+        return {'o': 'iterappend-x', 'style': draw(st.sampled_from(['reentrant', 'reentrant', 'reused-buffer', 'reused-buffer', 'copy-inside', 'manychunks'])),
+                'n': draw(st.sampled_from([1100, 2100])), 'seed': draw(st.integers(0, 2 ** 31))}
     if o == 'overwrite-refused':
         return {'o': 'overwrite-refused', 'what': draw(st.sampled_from(['strings', 'bools', 'objects', 'structured']))}
     if o == 'meta-own-mode':
@@ -526,6 +529,70 @@ class ArrayRun:
             if not chunks:
                 self.out.cls('iterappend-empty:' + empty)
             if not self.expect_ok(tag, lambda: a.iterappend(it)):
+                return False
+            self.m = newm
+            return self.observe(tag)
+        if o == 'iterappend-x':
+            # unusual but legitimate chunk sources for ONE iterappend call:
+            #   manychunks    - more than a thousand (two thousand) one-row chunks
+            #   reentrant     - the generator itself appends to the same array, through the same handle, between two of its chunks
+            #   reused-buffer - every chunk is the SAME ndarray object, refilled between yields (dtype and byte order of the array)
+            #   copy-inside   - the generator takes a copy() of the array half-way; the copy must equal what the handle shows then
+            if self.mode == 'r' or getattr(self, 'in_ctx', False):
+                return True
+            style = op['style']
+            tail = m.shape[1:]
+            self.kinds.append('iterappend')
+            self.out.cls('iterappend:' + style)
+            tag = f'iterappend-x:{style}:{empty}'
+            rows = lambda k, sd: gens.build_array(m.dtype, (k,) + tail, {'m': 'raw', 's': op['seed'] + sd})
+            problems = []
+            if style == 'manychunks':
+                block = rows(op['n'], 1)
+                src = (block[i:i + 1] for i in range(op['n']))
+                expect = [block]
+            elif style == 'reentrant':
+                c1, extra, c2 = rows(2, 1), rows(1, 2), rows(1, 3)
+
+                def src():
+                    yield c1
+                    a.append(extra)
+                    yield c2
+                src = src()
+                expect = [c1, extra, c2]
+            elif style == 'reused-buffer':
+                parts = [rows(2, i) for i in range(4)]
+                buf = np.empty((2,) + tail, dtype=m.dtype)
+
+                def src():
+                    for p_ in parts:
+                        buf[...] = p_
+                        yield buf
+                src = src()
+                expect = parts
+            else:
+                c1, c2 = rows(2, 1), rows(1, 2)
+                cpath = os.path.join(self.d, f'copy-inside{self.stepno}.darr')
+
+                def src():
+                    yield c1
+                    try:
+                        seen = a[:]
+                        c = a.copy(cpath)
+                        if c[:].tobytes() != seen.tobytes() or tuple(c.shape) != seen.shape:
+                            problems.append('copy taken during the append differs from what the handle showed at that moment')
+                    except Exception as e:
+                        problems.append(f'copy() during the append raised {type(e).__name__}: {e}')
+                    yield c2
+                src = src()
+                expect = [c1, c2]
+            newm = m
+            for c_ in expect:
+                newm = model_append(newm, c_)
+            if not self.expect_ok(tag, lambda: a.iterappend(src)):
+                return False
+            if problems:
+                self.out.viol('copy-during-append', tag, f'step {self.stepno}: {problems[0]}')
                 return False
             self.m = newm
             return self.observe(tag)
